@@ -32,6 +32,10 @@ SERVER_TYPES = [
 ]
 
 
+class OffGrid(Exception):
+    pass
+
+
 def run_scenario(K: float, sched: dict[int, str], n_grid: int, gdiv: int, mtypes, close_at=None):
     """sched: grid index -> 'b' (message before the timers of that instant), 'a' (after), 'ba' (both).
     grid step = K/gdiv.  After n_grid steps the peer is silent; we run on until 7.5K past the end.
@@ -45,7 +49,10 @@ def run_scenario(K: float, sched: dict[int, str], n_grid: int, gdiv: int, mtypes
 
     def to_ticks(t):
         n = round(t / tick_s)
-        assert abs(n * tick_s - t) < 1e-6 * max(1.0, K), (t, tick_s)
+        if abs(n * tick_s - t) >= 1e-6 * max(1.0, K):
+            # every instant of a scenario is a multiple of K/8 and the deadlines are K and 4.5 K after such instants: an
+            # instant off that grid is a wrong deadline
+            raise OffGrid(t, tick_s)
         return n
 
     def observe(enabled=1):
@@ -176,7 +183,16 @@ def run(ck: Check):
     spec_lines, spec_meta = [], []
     for si, (K, sched, n, gdiv, close_at) in enumerate(scen):
         mt = SERVER_TYPES[si % len(SERVER_TYPES):] + SERVER_TYPES[: si % len(SERVER_TYPES)]
-        ops, obs, log, info = run_scenario(K, sched, n, gdiv, mt, close_at)
+        try:
+            ops, obs, log, info = run_scenario(K, sched, n, gdiv, mt, close_at)
+        except OffGrid as e:
+            ck.violation("c10:deadline-off-grid", f"keepalive {K} s, messages at grid steps {sorted(sched)} (step K/{gdiv}): a keepalive / pong "
+                         f"timer or the detection instant lies at t={e.args[0]:.6f} s, which is not a multiple of K/{U} = {e.args[1]} s - the ping "
+                         "interval is K and the pong deadline exactly 4.5 K", {"keepalive": K, "schedule": {str(k): v for k, v in sched.items()},
+                                                                                "grid_divisor": gdiv, "instant": e.args[0]})
+            # the remaining analysis indexes scenarios by position: stop here with the concrete violation
+            ck.coverage.update({"evaluations": len(batches) + 1, "exhaustive": False, "aborted_on": "deadline-off-grid"})
+            return
         batches.append(ops)
         metas.append((si, obs, log, info))
         dist["scenarios"] += 1
